@@ -43,7 +43,7 @@ Proof.
     intros Hz. elim (C _ _ H0 Hz).
 Qed.
 
-Lemma Inv5_init : Inv5 init.
+Lemma Inv5_init b : Inv5 (init_of b).
 Proof.
   constructor; cbn; intros;
     match goal with H : nth_error [] ?x = Some _ |- _ => destruct x; discriminate end.
